@@ -39,7 +39,6 @@ ASSUMPTIONS = [
     "rows of env.Y precede the step (anchor: _make_timesteps skips the first `window` dates)",
     "a price missing at a step leaves the most recent given price delivered since the episode start in the book, "
     "otherwise any earlier given price or no quote; same for the rate, whose book starts at the 0 seed",
-    "tables are daily (one row per date at midnight); intraday tables are not generated",
     "rate series has no NaN and at least two rows (TradingEnvXY rejects NaN rates and squeezes one-row series)",
     "actions are small in-bounds weights, zero for assets without a quote; the account never goes broke",
 ]
@@ -68,16 +67,13 @@ class Oracle:
         m = self.window if not self.stride else math.ceil(self.window / self.stride)
         self.shape = (m, case["nx"])
         # non-holiday rows of the published price table, for the warm-up margin
-        # Reported finding (see the comment block at the end): price rows carrying a time of day are
-        # served even on a holiday date. Cases with such rows are counted as excluded and the holiday
-        # rule is then applied to their midnight rows only.
+        # Price rows carrying a time of day on a holiday date used to be served (defect D12, repaired in /repo by
+        # 01087c8); the holiday rule is asserted for every row, whatever its time of day.
         self.timed_holiday_rows = any(t.date() in self.hol and t != t.normalize() for t in self.Y_in.index)
         self.y_open = [t for t in env.Y.index if not self.is_holiday(t)]
 
     def is_holiday(self, t):
-        if t.date() not in self.hol:
-            return False
-        return t == t.normalize() or not self.timed_holiday_rows
+        return t.date() in self.hol
 
     def fail(self, text):
         self.res.fail(text)
@@ -316,7 +312,7 @@ def run_xy(case):
     if case.get("intraday"):
         res.tag("intraday=" + case["intraday"])
     if orc.timed_holiday_rows:
-        res.excluded = "intraday price rows on holiday dates (holiday rule checked on midnight rows only)"
+        res.tag("intraday-rows-on-holiday-dates")
     orc.check_published()
     k = 0
     for nr, fold in enumerate([case["fold"], case["fold2"]]):
@@ -342,7 +338,7 @@ def run_xy(case):
     return res
 
 
-PARTS = [Part("xy", strategy=lambda tier: xylab.cases(tier), run=run_xy, quick=960, thorough=24000)]
+PARTS = [Part("xy", strategy=lambda tier: xylab.cases(tier), run=run_xy, quick=1440, thorough=24000)]
 
 
 # ------------------------------------------------------------------------------------------------
@@ -385,3 +381,26 @@ FINDING_PROBES = {"C18-intraday-holiday": probe_intraday_holiday}
 # "AttributeError: 'float' object has no attribute 'item'" (env.py, reward scale: std of < 2 returns is NaN,
 # Series.mean() of all-NaN is a Python float).  Minimal: Y daily from 2019-01-01, X daily from 2018-12-22,
 # TradingEnvXY(X, Y, transformer='z-score', transformer_end='2019-01-02').
+
+# ------------------------------------------------------------------------------------------------
+# Sensitivity record (scratch copy of /repo/tradingenv, one mutant at a time,
+# VERIF_PKG_ROOT=<scratch> ./check C18 --tier quick --no-evidence; all exit 1 + VIOLATION, seed 1,
+# the starred ones also with seeds 2-4):
+#   state.py   queue fed newest-first (appendleft)                         caught: observation rows
+#   state.py   stride from the oldest row (x[::stride])                    caught: observation rows
+#   state.py   stride anchored one row early (own)                         caught: observation rows
+#   env.py     timesteps[window - 1:] in _make_timesteps                 * caught: only by the price-table reading of
+#              "full window available" (< window non-holiday env.Y rows precede the step); the published feature
+#              table always has >= 2*window-1 rows at the first step, so len(env.X.loc[:now]) >= window cannot see it
+#   env.py     holidays not dropped                                        caught: step on a holiday (calendar-daily tables)
+#   env.py     warm-up horizon exactly 3 + 2*window days (max() removed) * caught: observation padded with the oldest
+#              replayed row at an episode start right after a closure (exchange-shaped tables: SSE New Year 1996, ...)
+#   transmitter.py  warm-up origin exclusive (origin < t) (own)          * caught: same cases
+#   env.py     X.bfill instead of ffill                                    caught: published table is not a forward fill
+#   env.py     no fill at all (own)                                        caught: published table is not a forward fill
+#   env.py     clip before the transform                                 * caught: published feature exceeds clip / bounds
+#   env.py     end bound ignored (own)                                     caught: env.Y / steps after the end bound
+#   env.py     rate quotes widened by the spread (own)                     caught: rate book bid/ask != given rate
+#   transmitter.py  full spread on each side                               caught: quotes
+#   transmitter.py  absolute instead of relative spread (own)              caught: quotes
+#   transmitter.py  bisect_right when assigning events to steps (own)      caught: clock / step on a holiday
